@@ -21,22 +21,23 @@ theorem C13_attribute_list_exact (tag : Tag) (c2 : UInt8) (t : Bytes) (l : List 
 
 /-- one attribute with its name (the building block) -/
 theorem C13_attribute_exact (tag : Tag) (st : St) (ws : Bytes) (n0 : UInt8) (ns : Bytes) (m0 : UInt8) (name v t'' : Bytes) (q c1 c2 : UInt8)
-    (hws : ∀ x ∈ ws, isWs x = true) (h0 : isWs n0 = false) (hns : ∀ x ∈ ns, (x == 58) = false)
+    (hws : ∀ x ∈ ws, isWs x = true) (h0 : isWs n0 = false) (hst : (n0 == 62) = false ∧ (n0 == 47) = false) (hns : ∀ x ∈ ns, (x == 58) = false)
     (hname : ∀ x ∈ name, (x == 61 || isWs x) = false) (hq : q = 34 ∨ q = 39) (hv : ∀ x ∈ v, (x == q) = false)
     (h62 : c1 ≠ 62) (h47 : c1 ≠ 47) (hwin : ns.length + name.length + 4 ≤ 128) (hvwin : v.length + 5 ≤ 256)
     (hrest : st.rest = ws ++ (((n0 :: ns) ++ [58] ++ (m0 :: name)) ++ ([61, q] ++ v ++ [q, c1, c2] ++ t''))) :
     readAttribute tag st = (.ok ({ pt := 1, parent := tag.self, self := identify (n0 :: ns) (m0 :: name), val := v }, tag),
       { st with rest := [c1, c2] ++ t'' }) :=
-  readAttribute_exact tag st ws n0 ns m0 name v t'' q c1 c2 hws h0 hns hname hq hv h62 h47 hwin hvwin hrest
+  readAttribute_exact tag st ws n0 ns m0 name v t'' q c1 c2 hws h0 hst hns hname hq hv h62 h47 hwin hvwin hrest
 
 /-! non-vacuity: ` tiff:Make="Canon"\n tiff:Model='EOS'>` -/
 def aMake : Attr := { n0 := 116, ns := [105, 102, 102], m0 := 77, name := [97, 107, 101], q := 34, v := [67, 97, 110, 111, 110] }
 def aModel : Attr := { n0 := 116, ns := [105, 102, 102], m0 := 77, name := [111, 100, 101, 108], q := 39, v := [69, 79, 83] }
 example : aMake.OK ∧ aModel.OK := by
-  constructor <;> exact ⟨by decide, by decide, by decide, by decide, by decide, by decide, by decide⟩
+  constructor <;> exact ⟨by decide, by decide, by decide, by decide, by decide, by decide, by decide, by decide⟩
 example : ser [([32], aMake), ([10, 32], aModel)] ++ 62 :: 60 :: [] =
     (" tiff:Make=\"Canon\"\n tiff:Model='EOS'><").toUTF8.toList := by decide +kernel
 example : (attrLoop none 5 {} { rest := (" tiff:Make=\"Canon\"\n tiff:Model='EOS'><").toUTF8.toList, a := true, toks := [] }).2.toks.map (·.val) =
     [[69, 79, 83], [67, 97, 110, 111, 110]] := by decide +kernel
+
 
 end Imeta.Props.C13
